@@ -75,8 +75,9 @@ prop("C01", ["contracts.c01_client"], ["WsInit", "WsWriteSegment", "WsWriteExped
 
 prop("C20", ["contracts.c20_views"], ["EncodeBits", "DecodeBits", "GetBits", "BitsSetItem", "BitsAfterOtherView", "DecodeDesc", "EncodeDesc", "ArrayTemplate"],
      bounded=[("bounded.phys", "phys_view")],
-     assumed=["bit ranges are enumerated (every contiguous [lo,hi) in 32 bits for get/set through Bits; a covering subset for "
-              "encode_bits/decode_bits directly); raw and field values are universally quantified",
+     assumed=["bit ranges are enumerated (every contiguous [lo,hi) in 32 bits for get/set through Bits; for encode_bits/decode_bits "
+              "directly a covering subset in the quick tier, every range within 32 bits plus ranges reaching up to bit 64 in the thorough "
+              "tier); raw and field values are universally quantified",
               "description tables are the enumerated family in contracts/c20_views.py (1..20 entries); the looked-up value is universally quantified"],
      not_decided=["the physical view (float division and round()): floats are opaque to the engine; covered only by the bounded stand-in"])
 
